@@ -80,7 +80,7 @@ type TB struct {
 	next  int
 	ufs   map[string]*ufDecl
 	fresh map[string]int
-	groundByRoot map[int][]*Term
+	groundByRoot map[string][]*Term
 	selMemo map[[2]int]*Term
 }
 
